@@ -1,7 +1,7 @@
 (* C11/ProofsFinal.v — the statements of Props.v with their (short) glue proofs; Props.v only re-exports them. *)
 From Coq Require Import List NArith Bool.
 From Verif.Common Require Import Packet PolicyRef.
-From Verif.C11 Require Import Bpf Model Spec Proofs ProofsRule ProofsTiers ProofsMain ProofsSplit ProofsSets ProofsCut.
+From Verif.C11 Require Import Bpf Model Spec Proofs ProofsRule ProofsTiers ProofsMain ProofsSplit ProofsSets ProofsCut ProofsPinned.
 Import ListNotations.
 Open Scope N_scope.
 
@@ -110,6 +110,21 @@ Proof.
   intros v s bs kind ps rid b tg dleg c rid' Hs Ha Hw Hv Ht Hok lg.
   destruct (write_rule_sem v s bs kind ps Hs Ha rid b tg dleg c rid' Hw Hv Ht Hok) as [S _]. apply S.
 Qed.
+
+(* The UNCHANGED (pinned) builder, on every configuration clear of the three known-finding classes: *)
+Lemma c11_ir_verdict_pinned_pf : forall v s bs kind ps r p,
+  sets_agree kind s bs -> addrs_in_range v ps ->
+  valid_rules r = true -> typed_rules kind r = true -> clear_of_findings r = true ->
+  instructions pinned_variant v r = WOk p ->
+  forall lg, final_verdict (br_xdp r) (fst (exec (eval_cond v bs ps) p None lg)) = ref_verdict s v r ps.
+Proof.
+  intros v s bs kind ps r p Hs Ha Hv Ht Hc Hi lg. rewrite (instructions_pinned v r Hc) in Hi.
+  exact (c11_ir_verdict_pf v s bs kind ps r p Hs Ha Hv Ht Hi lg).
+Qed.
+
+Lemma c11_pinned_compiles_pf : forall v r,
+  valid_rules r = true -> clear_of_findings r = true -> exists p, instructions pinned_variant v r = WOk p.
+Proof. intros v r Hv Hc. rewrite (instructions_pinned v r Hc). exact (instructions_total fixed_variant v r eq_refl Hv). Qed.
 
 (* ------------------------------------------------------------------ the pinned tree: three refutations *)
 Definition allow_all : brule := empty_brule Allow.
